@@ -109,6 +109,22 @@ var continuations = []func(s *jen.Statement) *jen.Statement{
 	func(s *jen.Statement) *jen.Statement { return s.Add(jen.Block(jen.Id("wrapped"))) },
 }
 
+// sameCode: identity of two Code values (nil, pointers, Dict maps).
+func sameCode(a, b jen.Code) bool {
+	if a == nil || b == nil {
+		return a == nil && b == nil
+	}
+	va, vb := reflect.ValueOf(a), reflect.ValueOf(b)
+	if va.Type() != vb.Type() {
+		return false
+	}
+	switch va.Kind() {
+	case reflect.Ptr, reflect.Map:
+		return va.Pointer() == vb.Pointer()
+	}
+	return true
+}
+
 // notConstructs are *Statement methods that are not constructs (they do not append an element).
 var notConstructs = map[string]bool{"Clone": true}
 
@@ -477,20 +493,32 @@ func checkCall(cc callCase) error {
 		}
 		_ = bs
 		xs := mk()
-		var first, second, wantFirst *jen.Statement
+		before := append([]jen.Code{}, xs...)
+		var first, second, wantFirst, wantSecond *jen.Statement
 		if perr := hx.Safe(func() error {
 			first = callVariadic(fn, c, xs).Op("+").Id("viaFirst")
 			second = callVariadic(fn, c, xs).Op("-").Id("viaSecond").Id("more")
 			wantFirst = callVariadic(fn, c, mk()).Op("+").Id("viaFirst")
+			wantSecond = callVariadic(fn, c, mk()).Op("-").Id("viaSecond").Id("more")
 			return nil
 		}); perr != nil {
 			return fmt.Errorf("%s(xs...) twice on one slice: %v", fn, perr)
 		}
-		_ = second
 		o1, e1 := renderCode(first)
 		o2, e2 := renderCode(wantFirst)
 		if (e1 == nil) != (e2 == nil) || o1 != o2 {
 			return fmt.Errorf("%s(xs...): the statement built first renders %q after the same slice was used for a second %s(xs...) and that one was extended; built from a fresh slice it renders %q", fn, o1, fn, o2)
+		}
+		o3, e3 := renderCode(second)
+		o4, e4 := renderCode(wantSecond)
+		if (e3 == nil) != (e4 == nil) || o3 != o4 {
+			return fmt.Errorf("%s(xs...): the second statement built from the caller's slice renders %q; built from a fresh slice it renders %q", fn, o3, o4)
+		}
+		// the caller's slice holds what it held
+		for i := range before {
+			if !sameCode(before[i], xs[i]) {
+				return fmt.Errorf("%s(xs...): element %d of the caller's slice was replaced by the call", fn, i)
+			}
 		}
 	}
 	// a re-entrant callback: the callback of g.XFunc also emits into the enclosing group g. The
